@@ -48,6 +48,22 @@ def judge(ctx, label, texts, res):
     return nb
 
 
+SWEEP_TEMPLATES = [b'"\\u%s000"', b'"\\u0%s00"', b'"\\u00%s0"', b'"\\u000%s"', b'"\\uD83%s\\uDE00"', b'["\\u00a%s"]', b'"a%sb"', b'"\\%s"', b'"\\%sx"',
+                   b'%s', b'1%s', b'-%s', b'1.%s', b'1.5%s', b'1e%s', b'1e+%s', b'1e5%s', b'0%s', b'[1%s]', b'[1,%s2]', b'{"a"%s1}', b'{"a":1%s}', b'{%s"a":1}',
+                   b't%sue', b'tru%s', b'nul%s', b'fals%s', b'[]%s', b'{}%s', b'"a"%s', b'true%s']
+
+
+def byte_sweep():
+    """every byte value 0..255 at one marked position of each template (hex digits of an escape, escape letter, string body,
+    number parts, separators, literal letters, first byte after a value)"""
+    out = []
+    for tpl in SWEEP_TEMPLATES:
+        a, b = tpl.split(b'%s')
+        for c in range(256):
+            out.append(a + bytes([c]) + b)
+    return out
+
+
 def run(ctx):
     st = jc.build(ctx)
     if st is None:
@@ -55,10 +71,11 @@ def run(ctx):
     quick = ctx.tier == "quick"
     ctx.extra["rule"] = ("every string over the 16-symbol alphabet { } [ ] , : \" \\ 0 1 - . e + space x up to length L and over the letters of true/false/null up to length 4/5; "
                          "generated valid texts (depth<=8, width<=8, all scalar forms, random whitespace), all their truncations, token-level mutations (control bytes, high bytes, "
-                         "bad escapes, leading zeros, truncated numbers); each through Document.Check strict and with trailing characters allowed; compared with the Coq model and with "
+                         "bad escapes, leading zeros, truncated numbers); every byte value 0..255 at each marked position of the sweep templates (the four hex digits of a \\u escape, the escape letter, "
+                         "the string body, every part of a number, separators, literal letters, the byte after a value); each through Document.Check strict and with trailing characters allowed; compared with the Coq model and with "
                          "an independent recursive-descent RFC 8259 recogniser (python); non-trivial = input with at least one structural byte and length >= 2")
     ctx.assumptions += ["python recogniser lib/jsonref.py is an independent reading of RFC 8259 (second oracle beside the Coq grammar)"]
-    groups = [("corpus", jc.corpus("C05"))] + jc.gen_texts(ctx, quick)
+    groups = [("corpus", jc.corpus("C05")), ("byte sweep (every byte at %d marked positions)" % len(SWEEP_TEMPLATES), byte_sweep())] + jc.gen_texts(ctx, quick)
     dist = {}
     for label, texts in groups:
         if not texts:
